@@ -54,17 +54,35 @@ func checkC01(c *km.Ctx) {
 		return
 	}
 
-	flag := findLevelFlag(h)
+	// the level decision: in the handler, or in a stage of it that is new to the tree (the handler split up)
+	var flag *ssa.Phi
 	var decision *ssa.Call
+	frames := callsWithNewHelpersFuncs(c, h, 2)
+	for _, fr := range frames {
+		if flag = findLevelFlag(fr); flag != nil {
+			break
+		}
+	}
 	if flag == nil {
-		decision = findLevelDecision(c, s, h)
+		for _, fr := range frames {
+			if decision = findLevelDecision(c, s, fr); decision != nil {
+				break
+			}
+		}
 		if decision == nil {
 			r.AnchorLost("R-C01-2", "level decision of certGenHandler (a boolean flag tested before issuing, or a helper given the session level and the configured list)")
-			return
+		} else {
+			checkLevelDecision(c, s, decision)
 		}
-		checkLevelDecision(c, s, decision)
 	} else {
-		checkLevelFlag(c, s, h, flag)
+		checkLevelFlag(c, s, flag.Parent(), flag)
+	}
+	checkAnyMask(c, "R-C01-6")
+	checkConfigKeys(c, "R-C01-6", "the factors the operator requires", "baseConfig.AllowedAuthBackendsForCerts", "baseConfig.AllowedAuthBackendsForWebUI")
+	if flag == nil && decision == nil {
+		checkAuthBits(c, s, checkAuth, "R-C01-3")
+		checkKeymasterSigned(c, s, "R-C01-3")
+		return
 	}
 
 	prUnsealed := s.PrimUnsealed()
@@ -135,8 +153,6 @@ func checkC01(c *km.Ctx) {
 	// not pass as a keymaster user certificate: the deny-list and CA-separation obligations of the certificate
 	// verifier (C06's R-C06-4) belong to "the credential is valid" here as well
 	checkKeymasterSigned(c, s, "R-C01-3")
-	checkAnyMask(c, "R-C01-6")
-	checkConfigKeys(c, "R-C01-6", "the factors the operator requires", "baseConfig.AllowedAuthBackendsForCerts", "baseConfig.AllowedAuthBackendsForWebUI")
 
 	// a session cookie counts as a credential only while its signed claims say so: issuer, audience, kind,
 	// not-before and expiry are the obligations of C04's consumers of the session token type, borrowed here
